@@ -217,6 +217,14 @@ def mk_or(items):
         return FALSE
     if len(out) == 1:
         return out[0]
+    # common factor: (X & a) | (X & b) -> X & (a | b), so that what holds on every alternative stays a literal
+    sets = [frozenset(x[1]) if tag(x) == 'and' else frozenset([x]) for x in out]
+    common = frozenset.intersection(*sets)
+    if common:
+        rests = [s_ - common for s_ in sets]
+        if any(not r for r in rests):
+            return mk_and(list(common))
+        return mk_and(list(common) + [mk_or([mk_and(list(r)) for r in rests])])
     return ('or', tuple(sorted(out, key=key)))
 
 
@@ -316,6 +324,11 @@ def _const_cmp(op, a, b):
     return None
 
 
+def has_const_alternative(ph) -> bool:
+    """Some alternative of the selection (at any nesting depth) is a constant."""
+    return any(is_const(v) or (tag(v) == 'phi' and has_const_alternative(v)) for _, v in ph[1])
+
+
 def mk_cmp(pyop: str, a, b):
     """pyop in < > <= >= == != is isnot in notin."""
     if pyop == '>':
@@ -328,10 +341,15 @@ def mk_cmp(pyop: str, a, b):
         return mk_not(mk_cmp('in', a, b))
     op = {'<': 'lt', '<=': 'le', '==': 'eq', '!=': 'ne', 'is': 'is', 'in': 'in'}[pyop]
     # a value chosen on different paths compared with a constant: the comparison of each alternative on its path
-    if tag(a) == 'phi' and is_const(b) and len(a[1]) <= 4 and any(is_const(v) for _, v in a[1]):
+    if tag(a) == 'phi' and is_const(b) and len(a[1]) <= 8 and has_const_alternative(a):
         return mk_or([mk_and([g, mk_cmp(pyop, v, b)]) for g, v in a[1]])
-    if tag(b) == 'phi' and is_const(a) and len(b[1]) <= 4 and any(is_const(v) for _, v in b[1]):
+    if tag(b) == 'phi' and is_const(a) and len(b[1]) <= 8 and has_const_alternative(b):
         return mk_or([mk_and([g, mk_cmp(pyop, a, v)]) for g, v in b[1]])
+    # a condition compared with True / False is that condition or its negation
+    if op in ('eq', 'ne') and is_const(b) and isinstance(b[1], bool) and boolish(a) and not is_const(a):
+        return a if (b[1] is True) == (op == 'eq') else mk_not(a)
+    if op in ('eq', 'ne') and is_const(a) and isinstance(a[1], bool) and boolish(b) and not is_const(b):
+        return b if (a[1] is True) == (op == 'eq') else mk_not(b)
     if is_const(a) and is_const(b):
         r = _const_cmp(op, a[1], b[1])
         if r is not None:
